@@ -83,8 +83,14 @@ func (v *Vue) evalTemplate(ctx VueContext, nodes []*html.Node, componentData map
 			}
 		}
 
-		// Evaluate v-html if attribute is provided
-		if err := v.evalVHtml(ctx, nodes[0]); err != nil {
+		// Evaluate v-html if attribute is provided. The result is stored on a
+		// copy of the tag: the tag itself may be evaluated again (slot
+		// content used by several <slot> elements, loops).
+		if helpers.HasAttr(node, "v-html") {
+			node = helpers.ShallowCloneWithAttrs(node)
+			nodes = append([]*html.Node{node}, nodes[1:]...)
+		}
+		if err := v.evalVHtml(ctx, node); err != nil {
 			return nil, err
 		}
 
